@@ -209,12 +209,48 @@ def _sites(rng, kind, n, box):
     raise ValueError(kind)
 
 
-def voronoi(rng, n=30, kind="uniform", box=10.0, margin=0.1, min_ridge_frac=0.01, tries=50):
-    """bounded Voronoi tissue: the largest ridge-connected set of bounded regions that lie inside the box."""
+def _with_block(rng, pts, box):
+    """replace the sites inside a small rectangle by an exact square-lattice block: co-circular sites give Voronoi vertices of
+    degree four (degenerate diagram), still in exact force balance with tension = site distance"""
+    nx, ny = int(rng.integers(2, 4)), int(rng.integers(2, 4))
+    a = box / np.sqrt(max(len(pts), 4)) * float(rng.uniform(0.8, 1.2))
+    a = min(a, 0.45 * box / max(nx, ny))
+    x0 = rng.uniform(0.2 * box, max(0.2 * box + 1e-9, 0.8 * box - nx * a))
+    y0 = rng.uniform(0.2 * box, max(0.2 * box + 1e-9, 0.8 * box - ny * a))
+    keep = [p for p in pts if not (x0 - a < p[0] < x0 + nx * a and y0 - a < p[1] < y0 + ny * a)]
+    blk = [(x0 + i * a, y0 + j * a) for i in range(nx) for j in range(ny)]
+    return np.array(keep + blk)
+
+
+def _merge_coincident(vertices, regions_by_site, tol):
+    """union Voronoi vertices that coincide (a degenerate diagram comes out of Qhull as several vertices at one place)"""
+    n = len(vertices)
+    parent = list(range(n))
+
+    def find(x):
+        while parent[x] != x:
+            parent[x] = parent[parent[x]]
+            x = parent[x]
+        return x
+    used = sorted({v for reg in regions_by_site.values() for v in reg})
+    P = vertices[used]
+    tree = sp.cKDTree(P)
+    for i, j in tree.query_pairs(tol):
+        ra, rb = find(used[i]), find(used[j])
+        if ra != rb:
+            parent[max(ra, rb)] = min(ra, rb)
+    return find
+
+
+def voronoi(rng, n=30, kind="uniform", box=10.0, margin=0.1, min_ridge_frac=0.01, tries=50, block=False):
+    """bounded Voronoi tissue: the largest ridge-connected set of bounded regions that lie inside the box.
+    block=True embeds an exact square-lattice block of sites (four-fold junctions)."""
     for attempt in range(tries):
         if attempt and attempt % 10 == 0:
             n += 2          # very small site sets rarely have three bounded regions inside the box
         pts = _sites(rng, kind, n, box)
+        if block and len(pts) >= 8:
+            pts = _with_block(rng, pts, box)
         if len(pts) < 5:
             continue
         vor = sp.Voronoi(pts)
@@ -232,6 +268,17 @@ def voronoi(rng, n=30, kind="uniform", box=10.0, margin=0.1, min_ridge_frac=0.01
             cells[pi] = [int(reg[i]) for i in order]
         if len(cells) < 3:
             continue
+        find = None
+        if block:
+            find = _merge_coincident(vor.vertices, cells, 1e-9 * box)
+            for c in list(cells):
+                cyc = []
+                for v in (find(x) for x in cells[c]):
+                    if not cyc or cyc[-1] != v:
+                        cyc.append(v)
+                while len(cyc) > 1 and cyc[0] == cyc[-1]:
+                    cyc.pop()
+                cells[c] = cyc
         E = {}
         for c, cyc in cells.items():
             for a, b in zip(cyc, cyc[1:] + cyc[:1]):
@@ -243,8 +290,8 @@ def voronoi(rng, n=30, kind="uniform", box=10.0, margin=0.1, min_ridge_frac=0.01
         for (p, q), rv in zip(vor.ridge_points, vor.ridge_vertices):
             if -1 in rv:
                 continue
-            k = frozenset(int(x) for x in rv)
-            if k in E:
+            k = frozenset(int(find(x)) if find else int(x) for x in rv)
+            if len(k) == 2 and k in E:
                 T[k] = float(np.linalg.norm(pts[p] - pts[q]))
         at = AT(J, E, cells, {c: complex(*pts[c]) for c in cells}, T)
         comp = max(at.components(), key=len)
@@ -253,9 +300,12 @@ def voronoi(rng, n=30, kind="uniform", box=10.0, margin=0.1, min_ridge_frac=0.01
             continue
         if at.min_ridge() < min_ridge_frac * box / np.sqrt(n):
             continue
-        if any(len(v) > 3 for v in at.jifaces().values()):
+        deg = [len(v) for v in at.jifaces().values()]
+        if (not block and max(deg) > 3) or (block and (max(deg) > 4 or max(deg) < 4)):
             continue
-        at.meta.update(kind=kind, n=n)
+        if any(k not in at.T for k in at.E if len(at.E[k]) == 2):
+            continue
+        at.meta.update(kind=kind, n=n, block=bool(block))
         return at
     raise RuntimeError("no tissue generated")
 
